@@ -43,7 +43,7 @@ m = {
    "source_commits": hooks_commits,
    "add_only": True,
  },
- "engines": [{"name": "govc", "path": "/verif/engine", "serves_properties": sorted(CLAIMS), "kind_free_text": "contract-based deductive verifier for Go written for this task: weakest-precondition style VC generation over go/ssa of the real packages, contracts in //@ comments, obligations discharged by z3 4.8.12 / z3 5.1.0 / cvc5 1.0.3"}],
+ "engines": [{"name": "govc", "path": "/verif/engine", "serves_properties": sorted(CLAIMS), "kind_free_text": "contract-based deductive verifier for Go written for this task: weakest-precondition style VC generation over go/ssa of the real packages, contracts in //@ comments, obligations discharged by z3 4.8.12 / z3 5.1.0 / cvc5 1.0.3 (sympy for exact real-field identities); includes the jet-level checker for composite scalar programs and bsym, a bounded symbolic interpreter of the same SSA used for the properties claimed as bounded (category other)"}],
  "checks": checks,
  "not_applicable": na,
  "notes": "See DESIGN.md. Known findings: /verif/known_findings.txt. Expected obligation lists: /verif/expected/.",
